@@ -1,9 +1,79 @@
-import MCHap.Model.Pedigree
-import MCHap.Proofs.Prior
-import MCHap.Proofs.Comb
-import MCHap.Properties.C05
+import MCHap.Proofs.Pedigree
 
+/-!
+# C17 — the pedigree inheritance model is a proper probability distribution; zero iff invalid
+
+Unordered genotypes are count vectors (`compositions n p` lists each exactly once:
+`mem_compositions_iff`, `compositions_nodup`), so "sums to one over all unordered progeny genotypes /
+gametes" is a sum over `compositions`.
+-/
 namespace MCHap.C17
 open MCHap
+
+theorem compositions_nodup (n p : ℕ) : (compositions n p).Nodup := MCHap.compositions_nodup n p
+
+theorem mem_compositions_iff (n p : ℕ) (c : List ℕ) :
+    c ∈ compositions n p ↔ c.length = n ∧ c.sum = p := MCHap.mem_compositions_iff n p c
+
+/-! ### gametes -/
+
+/-- the multivariate hypergeometric gamete pmf sums to one (multivariate Vandermonde) -/
+theorem hyper_sum_one (dp : List ℕ) (pp tau : ℕ) (hs : dp.sum = pp) (ht : tau ≤ pp) :
+    ((compositions dp.length tau).map (hyperPmf dp pp tau)).sum = 1 := by
+  have h : ∀ g ∈ compositions dp.length tau,
+      hyperPmf dp pp tau g = (dosagePermutations g dp : ℚ) * ((comb pp tau : ℕ) : ℚ)⁻¹ := by
+    intro g _; unfold hyperPmf; rw [div_eq_mul_inv]
+  rw [List.map_congr_left h, List.sum_map_mul_right, vandermonde_multi, hs, comb_eq_choose]
+  have : (Nat.choose pp tau : ℚ) ≠ 0 := by
+    exact_mod_cast (Nat.choose_pos ht).ne'
+  field_simp
+
+/-- **gamete probabilities sum to one** over all gametes of size `τ`, for every parental count
+    vector of total `ploidy ≥ τ` and every double-reduction rate (non-zero only for `τ = 2`) -/
+theorem gamete_sum_one (dp : List ℕ) (pp tau : ℕ) (lam : ℚ) (hs : dp.sum = pp) (ht : tau ≤ pp)
+    (hlam : lam ≠ 0 → tau = 2) :
+    ((compositions dp.length tau).map (gameteSpec dp pp tau lam)).sum = 1 := by
+  unfold gameteSpec
+  rw [List.sum_map_add, List.sum_map_mul_left, hyper_sum_one dp pp tau hs ht]
+  by_cases h2 : tau = 2
+  · subst h2
+    simp only [if_true]
+    rw [List.sum_map_mul_left, dr_sum dp pp hs (by omega)]
+    ring
+  · have hl : lam = 0 := by
+      by_contra h; exact h2 (hlam h)
+    simp [h2, hl]
+
+theorem dosagePermutations_nonneg (g dp : List ℕ) : (0 : ℚ) ≤ (dosagePermutations g dp : ℚ) :=
+  Nat.cast_nonneg _
+
+theorem gameteSpec_nonneg (dp : List ℕ) (pp tau : ℕ) (lam : ℚ) (h0 : 0 ≤ lam) (h1 : lam ≤ 1) (g : List ℕ) :
+    0 ≤ gameteSpec dp pp tau lam g := by
+  unfold gameteSpec hyperPmf drSpec
+  have : (0 : ℚ) ≤ 1 - lam := by linarith
+  split <;> positivity
+
+/-- the multinomial "unknown origin" gamete pmf sums to one -/
+theorem unknown_sum_one (fs : List ℚ) (tau : ℕ) (hsum : fs.sum = 1) :
+    ((compositions fs.length tau).map (unknownPmf fs)).sum = 1 :=
+  C05.multinomial_sum_one fs tau hsum
+
+/-- the per-gamete mixture `(1−e)·gamete + e·multinomial` sums to one; for a clonal edge (τ = 0) or
+    an unknown parent (ploidy 0) the error is one and nothing is required of the parent -/
+theorem mixture_sum_one (dp : List ℕ) (pp tau : ℕ) (lam e : ℚ) (fs : List ℚ)
+    (hn : fs.length = dp.length) (hfs : fs.sum = 1)
+    (hk : tau ≠ 0 → pp ≠ 0 → dp.sum = pp ∧ tau ≤ pp ∧ (lam ≠ 0 → tau = 2)) :
+    ((compositions dp.length tau).map (mixPmf dp pp tau lam e fs)).sum = 1 := by
+  unfold mixPmf
+  rw [List.sum_map_add, List.sum_map_mul_left, List.sum_map_mul_left]
+  have hu := unknown_sum_one fs tau hfs
+  rw [hn] at hu
+  rw [hu]
+  by_cases h : tau = 0 ∨ pp = 0
+  · simp [specErr, h]
+  · push_neg at h
+    obtain ⟨h1, h2, h3⟩ := hk h.1 h.2
+    rw [gamete_sum_one dp pp tau lam h1 h2 h3]
+    ring
 
 end MCHap.C17
